@@ -318,6 +318,58 @@ def play_session(rng, n_msgs, wrap):
     return obs
 
 
+def ref_collision_session(n_between):
+    """more than 255 messages that take a segmentation reference in flight at once: the first and the last are segmented and
+    get the same 8-bit reference when n_between >= 255 (everything is queued before start(), the SMSC accepts everything)"""
+    from aiosmpplib.protocol import SubmitSm
+    from aiosmpplib.state import PhoneNumber, TON, NPI
+    loop = vsess.VLoop()
+    asyncio.set_event_loop(loop)
+    smsc = vsess.FakeSMSC(loop)
+    undo = vsess.install(loop, smsc)
+    obs = {}
+    try:
+        esme, hook = vsess.quiet_esme(enquire_link_interval=4.0, socket_timeout=10.0)
+
+        def on_pdu(conn, pdu):
+            for p in vsess.split_pdus(pdu)[0]:
+                cmd, seq = struct.unpack('>I', p[4:8])[0], struct.unpack('>I', p[12:16])[0]
+                if cmd in (1, 2, 9):
+                    conn.send(vsess.bind_resp_for(p))
+                elif cmd == 4:
+                    conn.send(smppref.header(0x80000004, 0, seq, b'id%d\x00' % seq), delay=0.01)
+                elif cmd == 0x15:
+                    conn.send(smppref.header(0x80000015, 0, seq), delay=0.05)
+        smsc.on_pdu = on_pdu
+        src = PhoneNumber('38591', TON.INTERNATIONAL, NPI.ISDN)
+        msgs = [('sar', SubmitSm(short_message='s' * 300, source=src, destination=src, log_id='M0', extra_data='X0', auto_message_payload=False))]
+        for i in range(n_between):
+            msgs.append(('plain', SubmitSm(short_message='hello', source=src, destination=src, log_id=f'M{i + 1}', extra_data=f'X{i + 1}', auto_message_payload=False)))
+        msgs.append(('sar', SubmitSm(short_message='t' * 300, source=src, destination=src, log_id=f'M{n_between + 1}', extra_data=f'X{n_between + 1}',
+                                     auto_message_payload=False)))
+
+        async def main():
+            for _k, m in msgs:
+                await esme.broker.enqueue(m)
+            t = asyncio.create_task(esme.start())
+            await asyncio.sleep(60.0)
+            obs['start_done'] = t.done()
+            obs['log'] = list(hook.log)
+            t.cancel()
+            try:
+                await t
+            except BaseException:  # noqa: BLE001
+                pass
+        loop.run_until_complete(main())
+        obs['msgs'] = [(k, m.log_id) for k, m in msgs]
+        obs['reactions'] = {}
+        obs['drop_at'] = None
+    finally:
+        undo()
+        vsess.finish(loop)
+    return obs
+
+
 def oracle_session(obs):
     from aiosmpplib.protocol import SubmitSm, SubmitSmResp, GenericNack
     if obs['start_done']:
@@ -435,6 +487,16 @@ def run(ctx):
                 'correspondence': 'Model/Handlers.v vs esme.py/correlator.py', 'input_term': inp[:2500], 'implementation_result': exp[:800]}, found_input=False)
         ctx.extra['correspondence_handlers_cases'] = len(cases)
         ctx.extra['correspondence_handlers_disagreements'] = len(bad)
+    # ---- more than 255 reference-taking messages in flight at once
+    for n_between in (254, 255):
+        obs = ref_collision_session(n_between)
+        ctx.traces += 1
+        ctx.case(('reference_collision', n_between), nontrivial=True)
+        msg = oracle_session(obs)
+        if msg:
+            ctx.violation(f'{n_between + 2} messages queued before start(), the first and the last segmented'
+                          + (' (they share the 8-bit reference)' if n_between >= 255 else '') + ': ' + msg,
+                          {'finding_key': 'reference-collision-256-in-flight' if n_between >= 255 else None, 'scenario': 'reference_collision', 'n_between': n_between})
     return ctx.finish()
 
 
@@ -443,15 +505,20 @@ def replay(ctx, path):
     import random
     with open(path) as f:
         r = json.load(f)
+    msg = None
     if r.get('function') == 'history':
         hist = [tuple(tuple(x) if isinstance(x, list) else x for x in e) for e in r['history']]
         out, _e = asyncio.run(run_real(hist))
-        print('replay:', oracle_history(hist, observe(out)) or 'property holds on this input')
+        msg = oracle_history(hist, observe(out))
     elif r.get('function') == 'session':
         r2 = random.Random(r['session_seed'])
         n_msgs, wrap = r2.choice([1, 2, 4, 6]), r2.random() < 0.3
         obs = play_session(r2, n_msgs, wrap)
-        print('replay:', oracle_session(obs) or 'property holds on this input')
+        msg = oracle_session(obs)
+    elif r.get('scenario') == 'reference_collision':
+        msg = oracle_session(ref_collision_session(r['n_between']))
     else:
         print(json.dumps(r)[:1500])
-    return 0
+        return 0
+    print('replay:', msg or 'property holds on this input')
+    return 1 if msg else 0
